@@ -284,6 +284,8 @@ pub enum ConfigError {
         cluster_id: String,
         reason: &'static str,
     },
+    #[error("the certificate file {path} cannot be used: {reason}")]
+    InvalidCertificate { path: String, reason: String },
     #[error("invalid sozu_id_header for the listener {address}: {reason}")]
     InvalidSozuIdHeader { address: String, reason: String },
     #[error("invalid path {0:?}")]
@@ -1725,6 +1727,7 @@ impl FileClusterFrontendConfig {
             None => None,
             Some(path) => {
                 let certificate = Config::load_file(path)?;
+                check_certificate_pem(path, &certificate)?;
                 Some(certificate)
             }
         };
@@ -2205,6 +2208,20 @@ pub struct BackendConfig {
     pub sticky_id: Option<String>,
     pub backup: Option<bool>,
     pub backend_id: Option<String>,
+}
+
+/// `ConfigState::add_certificate` parses the certificate (fingerprint, names)
+/// and refuses an AddCertificate whose PEM does not hold one, while the
+/// AddHttpsFrontend that follows is accepted: the loader must not let such a
+/// file through.
+fn check_certificate_pem(path: &str, pem_text: &str) -> Result<(), ConfigError> {
+    let invalid = |reason: String| ConfigError::InvalidCertificate {
+        path: path.to_owned(),
+        reason,
+    };
+    let pem = crate::certificate::parse_pem(pem_text.as_bytes()).map_err(|e| invalid(e.to_string()))?;
+    crate::certificate::parse_x509(&pem.contents).map_err(|e| invalid(e.to_string()))?;
+    Ok(())
 }
 
 /// The id a backend gets in `generate_requests`: the explicit `backend_id`, or
